@@ -10,7 +10,9 @@ use syn::{Expr, Stmt};
 
 use crate::analyze::{classify_atomic_call, is_box_from_raw, is_fence_path, ordering_of, path_idents, tokens_mention_ident, BodyFacts};
 use crate::collect::{CfgKind, Crate};
+use crate::lower::{Lowerer, Node, Val};
 use crate::model::*;
+use crate::roles::{Roles, ROLE_CLONE, ROLE_DROP};
 
 pub const GATE_NAMES: &[&str] = &[
     "Arc::is_unique",
@@ -42,12 +44,14 @@ pub const FUNNEL_NAMES: &[&str] = &[
 
 const ARC_CTORS: &[&str] = &["from_raw", "from_raw_offset", "protected_from_thin", "from_thin", "from_raw_inner", "from_raw_slice"];
 const PURE_METHODS: &[&str] = &["inner", "ptr", "as_ptr", "as_ref", "as_mut", "cast", "get"];
-const PANIC_MACROS: &[&str] = &["panic", "unreachable", "unimplemented", "todo"];
+pub(crate) const PANIC_MACROS: &[&str] = &["panic", "unreachable", "unimplemented", "todo"];
 
 pub struct Analysis<'a> {
     pub krate: &'a Crate,
     pub bodies: &'a [BodyFacts],
-    /// all sites sorted by (file, line)
+    /// which functions play the clone / drop role (`roles.rs`)
+    pub roles: Roles,
+    /// all sites sorted by (file, line); `fn_` is the canonical role name where the function plays one
     pub sites: Vec<Site>,
 }
 
@@ -70,7 +74,7 @@ pub fn flatten(b: &syn::Block) -> Vec<&Stmt> {
     v
 }
 
-fn peel(e: &Expr) -> &Expr {
+pub(crate) fn peel(e: &Expr) -> &Expr {
     match e {
         Expr::Paren(p) => peel(&p.expr),
         Expr::Group(g) => peel(&g.expr),
@@ -79,7 +83,7 @@ fn peel(e: &Expr) -> &Expr {
 }
 
 /// `unsafe { e }` / `{ e }` / `(e)`  ->  `e`
-fn strip_blocks(e: &Expr) -> &Expr {
+pub(crate) fn strip_blocks(e: &Expr) -> &Expr {
     match e {
         Expr::Paren(p) => strip_blocks(&p.expr),
         Expr::Group(g) => strip_blocks(&g.expr),
@@ -96,7 +100,7 @@ fn strip_blocks(e: &Expr) -> &Expr {
 }
 
 /// operand of a comparison: parentheses, `as T` casts and references do not matter
-fn peel_val(e: &Expr) -> &Expr {
+pub(crate) fn peel_val(e: &Expr) -> &Expr {
     match e {
         Expr::Paren(p) => peel_val(&p.expr),
         Expr::Group(g) => peel_val(&g.expr),
@@ -106,7 +110,7 @@ fn peel_val(e: &Expr) -> &Expr {
     }
 }
 
-fn as_cmp(e: &Expr) -> Option<(Cmp, &Expr, &Expr)> {
+pub(crate) fn as_cmp(e: &Expr) -> Option<(Cmp, &Expr, &Expr)> {
     if let Expr::Binary(b) = peel(e) {
         let c = match b.op {
             syn::BinOp::Eq(_) => Cmp::Eq,
@@ -122,7 +126,7 @@ fn as_cmp(e: &Expr) -> Option<(Cmp, &Expr, &Expr)> {
     None
 }
 
-fn int_lit(e: &Expr) -> Option<u128> {
+pub(crate) fn int_lit(e: &Expr) -> Option<u128> {
     if let Expr::Lit(l) = peel_val(e) {
         if let syn::Lit::Int(i) = &l.lit {
             return i.base10_parse::<u128>().ok();
@@ -131,7 +135,7 @@ fn int_lit(e: &Expr) -> Option<u128> {
     None
 }
 
-fn single_ident(e: &Expr) -> Option<String> {
+pub(crate) fn single_ident(e: &Expr) -> Option<String> {
     if let Expr::Path(p) = peel_val(e) {
         if p.qself.is_none() && p.path.segments.len() == 1 {
             return Some(p.path.segments[0].ident.to_string());
@@ -140,7 +144,7 @@ fn single_ident(e: &Expr) -> Option<String> {
     None
 }
 
-fn pat_ident(p: &syn::Pat) -> Option<String> {
+pub(crate) fn pat_ident(p: &syn::Pat) -> Option<String> {
     match p {
         syn::Pat::Ident(pi) => Some(pi.ident.to_string()),
         syn::Pat::Type(pt) => pat_ident(&pt.pat),
@@ -148,7 +152,7 @@ fn pat_ident(p: &syn::Pat) -> Option<String> {
     }
 }
 
-fn is_wild(p: &syn::Pat) -> bool {
+pub(crate) fn is_wild(p: &syn::Pat) -> bool {
     match p {
         syn::Pat::Wild(_) => true,
         syn::Pat::Type(pt) => is_wild(&pt.pat),
@@ -156,7 +160,7 @@ fn is_wild(p: &syn::Pat) -> bool {
     }
 }
 
-fn atomic_of_kind(e: &Expr, kind: Kind) -> Option<(MemOrd, usize)> {
+pub(crate) fn atomic_of_kind(e: &Expr, kind: Kind) -> Option<(MemOrd, usize)> {
     if let Expr::MethodCall(m) = peel_val(strip_blocks(e)) {
         if let Some((k, o)) = classify_atomic_call(m) {
             if k == kind {
@@ -167,11 +171,11 @@ fn atomic_of_kind(e: &Expr, kind: Kind) -> Option<(MemOrd, usize)> {
     None
 }
 
-fn macro_name(m: &syn::Macro) -> String {
+pub(crate) fn macro_name(m: &syn::Macro) -> String {
     m.path.segments.last().map(|s| s.ident.to_string()).unwrap_or_default()
 }
 
-fn stmt_macro(s: &Stmt) -> Option<&syn::Macro> {
+pub(crate) fn stmt_macro(s: &Stmt) -> Option<&syn::Macro> {
     match s {
         Stmt::Macro(m) => Some(&m.mac),
         Stmt::Expr(Expr::Macro(m), _) => Some(&m.mac),
@@ -179,14 +183,14 @@ fn stmt_macro(s: &Stmt) -> Option<&syn::Macro> {
     }
 }
 
-fn is_plain_return(stmts: &[&Stmt]) -> bool {
+pub(crate) fn is_plain_return(stmts: &[&Stmt]) -> bool {
     match stmts {
         [Stmt::Expr(Expr::Return(r), _)] => r.expr.is_none(),
         _ => false,
     }
 }
 
-fn is_pure(e: &Expr) -> bool {
+pub(crate) fn is_pure(e: &Expr) -> bool {
     match e {
         Expr::Path(_) | Expr::Lit(_) => true,
         Expr::Paren(p) => is_pure(&p.expr),
@@ -222,7 +226,7 @@ fn is_pure(e: &Expr) -> bool {
 }
 
 /// names of all functions / methods called somewhere in an expression (macros' token idents included)
-fn call_names(e: &Expr) -> BTreeSet<String> {
+pub(crate) fn call_names(e: &Expr) -> BTreeSet<String> {
     struct V(BTreeSet<String>);
     impl<'a> syn::visit::Visit<'a> for V {
         fn visit_expr_method_call(&mut self, m: &'a syn::ExprMethodCall) {
@@ -247,10 +251,16 @@ fn call_names(e: &Expr) -> BTreeSet<String> {
 
 impl<'a> Analysis<'a> {
     pub fn new(krate: &'a Crate, bodies: &'a [BodyFacts], extra_sites: Vec<Site>) -> Self {
+        let roles = Roles::compute(krate, bodies);
         let mut sites: Vec<Site> = bodies.iter().flat_map(|b| b.sites.iter().cloned()).collect();
+        for s in &mut sites {
+            if s.fn_idx != usize::MAX {
+                s.fn_ = roles.display_name(krate, s.fn_idx);
+            }
+        }
         sites.extend(extra_sites);
         sites.sort_by(|a, b| (a.file.as_str(), a.line).cmp(&(b.file.as_str(), b.line)));
-        Analysis { krate, bodies, sites }
+        Analysis { krate, bodies, roles, sites }
     }
 
     fn src_at(&self, file: &str, line: usize) -> Src {
@@ -419,7 +429,7 @@ impl<'a> Analysis<'a> {
         }
     }
 
-    fn is_fence_expr(&self, e: &Expr) -> Option<(FenceKind, usize)> {
+    pub(crate) fn is_fence_expr(&self, e: &Expr) -> Option<(FenceKind, usize)> {
         let e = peel(strip_blocks(e));
         if let Some((o, line)) = atomic_of_kind(e, Kind::Load) {
             return Some((FenceKind::Load(o), line));
@@ -437,7 +447,7 @@ impl<'a> Analysis<'a> {
 
     /// `self.drop_slow()` (any method of self whose body does `Box::from_raw`), `Box::from_raw(..)`,
     /// `drop(Box::from_raw(..))`
-    fn is_destroy_expr(&self, f: usize, e: &Expr) -> bool {
+    pub(crate) fn is_destroy_expr(&self, f: usize, e: &Expr) -> bool {
         let mut e = peel(strip_blocks(e));
         if let Expr::Call(c) = e {
             if let Expr::Path(p) = &*c.func {
@@ -900,7 +910,7 @@ impl<'a> Analysis<'a> {
         (go(&c.expr), src)
     }
 
-    fn abort_call(&self, from_fn: usize, e: &Expr) -> Option<bool> {
+    pub(crate) fn abort_call(&self, from_fn: usize, e: &Expr) -> Option<bool> {
         // Some(true): a call of the crate's `abort` / a process abort; Some(false): a call named abort
         // that resolves to something else
         if let Expr::Call(c) = peel(strip_blocks(e)) {
